@@ -67,7 +67,7 @@ def explore(ck, n, np, tmath, atm, use_model=True):
             expect.append((real, what, case, tol))
 
     for it in range(n):
-        m = rng.choice([2, 3, 5, 17, 60]) if it % 25 else 2000
+        m = rng.choice([2, 3, 5, 17, 60]) if it % 25 else (2000 if ck.tier == "quick" else rng.choice([2000, 10000]))
         kind = rng.choice(["uniform", "irregular", "pressure", "pressure", "tiny", "nearuniform"])
         x = gen_grid(rng, m, kind)
         y = [rng.uniform(0, 5) if rng.random() < 0.7 else rng.uniform(-5, 5) for _ in range(m)]
@@ -179,6 +179,41 @@ def explore(ck, n, np, tmath, atm, use_model=True):
             zstd = np.asarray(atm.pressure2height(xa))
             if zstd[0] != 0 or not np.all(np.diff(zstd) > 0):
                 ck.violation("other", "pressure2height without T (standard atmosphere) is not strictly increasing", c4)
+            # ... and it uses the standard atmosphere addressed by PRESSURE (independent table + interpolation)
+            hh = [-610, 11000, 20000, 32000, 47000, 51000, 71000, 84852]
+            ppp = [108900, 22632, 5474.9, 868.02, 110.91, 66.939, 3.9564, 0.3734]
+            ttt = [19.0, -56.5, -56.5, -44.5, -2.5, -2.5, -58.5, -86.28]
+            lp = np.log(np.array(ppp))[::-1]
+            tk = (np.array(ttt) + 273.15)[::-1]
+            lx = np.log(xa)
+            idx = np.clip(np.searchsorted(lp, lx), 1, 7)
+            Tstd = tk[idx - 1] + (tk[idx] - tk[idx - 1]) / (lp[idx] - lp[idx - 1]) * (lx - lp[idx - 1])
+            zref = np.asarray(atm.pressure2height(xa, Tstd))
+            if np.max(np.abs(zstd - zref)) > 1e-6 * max(float(zref[-1]), 1.0):
+                ck.violation("other", f"pressure2height(p) without T differs from pressure2height(p, standard atmosphere at p): {zstd[-1]!r} vs {zref[-1]!r}", c4)
+            # multi-dimensional water vapour / CRH along either axis = the 1-d result per column
+            if 2 <= m <= 17:
+                ncol = rng.randint(2, 3)
+                V = np.array([[rng.uniform(0, 0.03) for _ in range(ncol)] for _ in range(m)])
+                TT = np.array([[rng.uniform(200, 310) for _ in range(ncol)] for _ in range(m)])
+                ax = rng.choice([0, 1])
+                Vin, Tin = (V, TT) if ax == 0 else (V.T.copy(), TT.T.copy())
+                ck.case(key=("axis", m, ncol, ax, x[0]), kind=f"iwv-crh/2d/axis{ax}")
+                c6 = {"fn": "2d", "p": x[:6], "axis": ax, "n": m, "columns": ncol}
+                iw2 = np.asarray(atm.integrate_water_vapor(Vin, xa, axis=ax))
+                for j in range(ncol):
+                    w1 = float(atm.integrate_water_vapor(V[:, j].copy(), xa))
+                    if iw2.shape != (ncol,) or rel(iw2[j], w1) > 1e-12:
+                        ck.violation("other", f"integrate_water_vapor along axis {ax} of a 2-d array differs from the 1-d result of column {j}", c6)
+                        break
+                qsat = np.array([[float(atm.water_vapor_pressure2specific_humidity(atm.e_eq_mixed_mk(TT[i, j]), x[i])) for j in range(ncol)] for i in range(m)])
+                if np.all((qsat > 0) & (qsat < 1)):
+                    frac = np.array([rng.uniform(0.1, 0.9) for _ in range(ncol)])
+                    Q = qsat * frac[None, :]
+                    Qin = Q if ax == 0 else Q.T.copy()
+                    crh2 = np.asarray(atm.column_relative_humidity(Qin.copy(), xa.copy(), Tin.copy(), axis=ax))
+                    if crh2.shape != (ncol,) or np.max(np.abs(crh2 - frac)) > 1e-10:
+                        ck.violation("other", f"column_relative_humidity along axis {ax}: columns at {frac.tolist()} of saturation give {crh2.tolist()}", c6)
     # ---------------- refinement: both IWV forms converge; isothermal column
     for _ in range(max(n // 10, 3)):
         T0, x0 = rng.uniform(220, 300), rng.uniform(1e-4, 0.03)
@@ -259,13 +294,37 @@ def main():
     except vlib.InfraError:
         use_model = False
         ck.notes.append("model driver not available (build broken): correspondence skipped")
-    explore(ck, ck.budget(120, 3000), np, tmath, atm, use_model)
+    for _name, c in vlib.load_corpus(PROP):
+        corpus_case(ck, c, np, tmath, atm)
+    ck.guard(lambda: explore(ck, ck.budget(120, 3000), np, tmath, atm, use_model), what="typhon (column integrals)")
     if ck.broken() and not ck.violations:
-        explore(ck, 3000, np, tmath, atm, use_model=False)
+        ck.guard(lambda: explore(ck, 3000, np, tmath, atm, use_model=False), what="typhon (column integrals)")
     ck.finish()
 
 
+def corpus_case(ck, c, np, tmath, atm):
+    """stored witnesses: {"fn": "integrate_column", "x", "y", "expect"} | {"fn": "crh2d", ...}"""
+    if c.get("fn") == "integrate_column":
+        got = float(tmath.integrate_column(np.array(c["y"], float), np.array(c["x"], float)))
+        ck.case(key=("corpus", str(c["x"])), kind="corpus")
+        if abs(got - c["expect"]) > 1e-12 * max(abs(c["expect"]), 1.0):
+            ck.violation("other", f"integrate_column({c['y']}, {c['x']}) = {got!r}, expected {c['expect']!r}", c)
+    if c.get("fn") == "crh2d":
+        t = np.linspace(240, 320, 10)
+        p = np.linspace(1000e2, 250e2, 10)
+        qs = np.array([float(atm.water_vapor_pressure2specific_humidity(atm.e_eq_mixed_mk(tt), pp)) for tt, pp in zip(t, p)])
+        Q = np.stack([0.5 * qs, 0.3 * qs], axis=1)
+        T = np.stack([t, t], axis=1)
+        got = np.asarray(atm.column_relative_humidity(Q, p, T, axis=0))
+        ck.case(key=("corpus", "crh2d"), kind="corpus")
+        if got.shape != (2,) or np.max(np.abs(got - np.array([0.5, 0.3]))) > 1e-10:
+            ck.violation("other", f"column_relative_humidity of two columns at 0.5 / 0.3 of saturation = {got.tolist()}", c)
+
+
 def replay(path):
-    obj = json.load(open(path))
-    print(json.dumps(obj.get("case"), indent=1)[:1500], obj.get("what"))
-    raise SystemExit(1 if obj.get("case") else 0)
+    import numpy as np
+    from typhon import math as tmath
+    from typhon.physics import atmosphere as atm
+    numlib.replay_by_rerun(PROP, path, lambda: vlib.Check(PROP, pkg="numeric", props="Proofs.Props.C14"),
+                           lambda ck: (ck.guard(lambda: explore(ck, ck.budget(120, 3000), np, tmath, atm, use_model=False)),
+                                       [corpus_case(ck, c, np, tmath, atm) for _n, c in vlib.load_corpus(PROP)]))
